@@ -312,12 +312,14 @@ class MemFS:
         self.mtime[p] = self.clock
 
     def walk(self, top):
+        """os.walk(top, topdown=True): the caller may prune the yielded directory list in place"""
         top = top.rstrip("/") or "/"
         dirs = sorted(d for d in self.dirs if posixpath.dirname(d) == top and d != top)
         files = sorted(f for f in list(self.files) + list(self.links) if posixpath.dirname(f) == top)
-        yield top, [posixpath.basename(d) for d in dirs], [posixpath.basename(f) for f in files]
-        for d in dirs:
-            yield from self.walk(d)
+        names = [posixpath.basename(d) for d in dirs]
+        yield top, names, [posixpath.basename(f) for f in files]
+        for name in list(names):
+            yield from self.walk(posixpath.join(top, name))
 
     def listdir(self, top):
         for _, ds, fs in self.walk(top):
